@@ -26,6 +26,19 @@ pub struct HistCase {
     /// allow call-paced unbounded recursion (short step bound)
     #[serde(default)]
     pub rec: bool,
+    /// frozen form written into replay files: the elaborated script and the explicit action
+    /// list, so that a replay does not depend on the generator version
+    #[serde(default)]
+    pub explicit: Option<Explicit>,
+}
+
+#[derive(Clone, Debug, Serialize, Deserialize)]
+pub struct Explicit {
+    pub instr: crate::script::I,
+    pub services: std::collections::BTreeMap<String, crate::script::Ret>,
+    pub n_peers: usize,
+    pub feat: Features,
+    pub actions: Vec<Action>,
 }
 
 impl HistCase {
@@ -68,7 +81,7 @@ pub fn hist_strategy_dom(profile: u8, depth: u32, size: u32, max_sched: usize, n
             // confirmed known findings (K1..K5, DESIGN §14) and are excluded by construction;
             // VERIF_EXTENDED=1 re-enables them for exploration.
             let extended = ext && (with_extended || std::env::var("VERIF_EXTENDED").is_ok());
-            HistCase { sk, sched, n_peers, profile, non_json, extra, par_only: !extended, rec: false }
+            HistCase { sk, sched, n_peers, profile, non_json, extra, par_only: !extended, rec: false, explicit: None }
         })
         .boxed()
 }
@@ -82,7 +95,51 @@ pub struct Hist {
     pub quiescent: bool,
 }
 
+/// attach the frozen (generator-independent) form of a case
+pub fn freeze_hist(case: &HistCase) -> HistCase {
+    let mut c = case.clone();
+    if c.explicit.is_some() {
+        return c;
+    }
+    if let Ok(h) = simulate(case) {
+        c.explicit = Some(Explicit {
+            instr: h.script.instr.clone(),
+            services: h.script.services.clone(),
+            n_peers: h.script.peers.len(),
+            feat: h.script.feat.clone(),
+            actions: h.log.iter().map(|r| r.action.clone()).collect(),
+        });
+    }
+    c
+}
+
 pub fn simulate(case: &HistCase) -> Result<Hist, String> {
+    if let Some(e) = &case.explicit {
+        let script = Script { instr: e.instr.clone(), text: crate::script::print(&e.instr), peers: peers_for(e.n_peers), services: e.services.clone(), feat: e.feat.clone() };
+        if air_parser::parse(&script.text).is_err() {
+            return Err("frozen script is rejected by the parser".into());
+        }
+        let (particle, log, peers, inconclusive, quiescent) = {
+            let mut sim = Sim::new(&script);
+            for a in &e.actions {
+                // an action that is not enabled any more (changed behaviour) ends the replay
+                let ok = match a {
+                    Action::Kick => sim.log.is_empty(),
+                    Action::Deliver(p, i) | Action::ResultsWith(p, _, i) => sim.peers.get(*p).map(|x| *i < x.inbox.len()).unwrap_or(false),
+                    Action::Redeliver(p, j) => sim.peers.get(*p).map(|x| *j < x.delivered.len()).unwrap_or(false),
+                    Action::Results(p, _) => *p < sim.peers.len(),
+                };
+                if !ok {
+                    break;
+                }
+                sim.step(a.clone());
+            }
+            sim.drain();
+            let q = sim.quiescent();
+            (sim.particle.clone(), std::mem::take(&mut sim.log), std::mem::take(&mut sim.peers), sim.inconclusive, q)
+        };
+        return Ok(Hist { script, particle, log, peers, inconclusive, quiescent });
+    }
     let script = elaborate(&case.sk, &case.cfg());
     if air_parser::parse(&script.text).is_err() {
         return Err("generator produced a script the parser rejects".into());
@@ -228,6 +285,9 @@ pub struct C02;
 
 impl Property for C02 {
     type Case = HistCase;
+    fn freeze(&self, case: &HistCase) -> HistCase {
+        crate::props::hist::freeze_hist(case)
+    }
     fn id(&self) -> &'static str {
         "C02"
     }
@@ -374,11 +434,14 @@ pub fn c03_check_data(h: &Hist, r: &RunRecord) -> Result<usize, (String, String)
 
 impl Property for C03 {
     type Case = HistCase;
+    fn freeze(&self, case: &HistCase) -> HistCase {
+        crate::props::hist::freeze_hist(case)
+    }
     fn id(&self) -> &'static str {
         "C03"
     }
     fn rule(&self) -> String {
-        "every new-data outcome of honest STREAM histories: decodes, supported version, independent CID-store closure, independent signature verification per peer, fresh observer accepts it as current data. Non-trivial = data with results of >= 2 peers and (a canon or a failed call); distinct by data hash".into()
+        "every new-data outcome of honest STREAM histories: decodes, supported version, independent CID-store closure, independent signature verification per peer; accepted as current data without a preparation error by a fresh observer, by an observer that has merged all earlier data of the particle, and by every receiving peer of the history. Non-trivial = data with results of >= 2 peers and (a canon or a failed call); distinct by data hash".into()
     }
     fn bounds(&self, tier: Tier) -> Value {
         json!({"skeleton_depth": tier.pick(5, 7), "skeleton_size": tier.pick(30, 60), "schedule_len": 40, "peers": "3..5"})
@@ -394,7 +457,7 @@ impl Property for C03 {
         .boxed()
     }
     fn required_classes(&self) -> Vec<&'static str> {
-        vec!["has_canon", "has_failing_service", "catchable_end", "redelivery"]
+        vec!["has_canon", "has_failing_service", "catchable_end", "redelivery", "cumulative_merge"]
     }
     fn check(&self, case: &HistCase, _tier: Tier) -> CaseResult {
         let h = match simulate(case) {
@@ -405,11 +468,34 @@ impl Property for C03 {
         if case.non_json {
             rep.classes.push("non_json_subdomain".into());
         }
+        // a cumulative observer merges every produced data in production order: a receiver that
+        // already holds older results of the producing peers
+        let mut cumulative: Vec<u8> = vec![];
         for r in &h.log {
+            // receivers in the history itself: honest data must never be refused in preparation
+            if !r.cur.is_empty() && (1..=9999).contains(&r.out.ret_code) {
+                return CaseResult::Violation(
+                    viol(&format!("C03:receiver-rejects:{}", r.out.ret_code), format!("peer {} refused honest data with preparation error {}: {}", h.script.peers[r.peer].name, r.out.ret_code, r.out.error_message), &h, r.step),
+                    rep,
+                );
+            }
             if !is_new_data(r.out.ret_code) {
                 continue;
             }
-            rep.evals += 2;
+            rep.evals += 3;
+            let o = run(&h.particle, &peer_key("observer-cumulative"), &cumulative, &r.out.data, &Default::default(), &Limits::default());
+            if (1..=9999).contains(&o.ret_code) {
+                return CaseResult::Violation(
+                    viol(&format!("C03:cumulative-observer-rejects:{}", o.ret_code), format!("an observer holding the earlier data of this particle refused new honest data with preparation error {}: {}", o.ret_code, o.error_message), &h, r.step),
+                    rep,
+                );
+            }
+            if is_new_data(o.ret_code) {
+                if !cumulative.is_empty() {
+                    rep.classes.push("cumulative_merge".into());
+                }
+                cumulative = o.data;
+            }
             match c03_check_data(&h, r) {
                 Ok(n) => {
                     let d = decode_data(&r.out.data).unwrap();
@@ -439,6 +525,9 @@ pub struct C04;
 
 impl Property for C04 {
     type Case = HistCase;
+    fn freeze(&self, case: &HistCase) -> HistCase {
+        crate::props::hist::freeze_hist(case)
+    }
     fn id(&self) -> &'static str {
         "C04"
     }
@@ -559,6 +648,9 @@ pub struct C09;
 
 impl Property for C09 {
     type Case = HistCase;
+    fn freeze(&self, case: &HistCase) -> HistCase {
+        crate::props::hist::freeze_hist(case)
+    }
     fn id(&self) -> &'static str {
         "C09"
     }
